@@ -1,3 +1,4 @@
+// @READY (registered in vf/props.py)
 // appended to src/common/alccodec/alcraptorq.rs (scratch copy only) -- RFC 6330 section 3.3 (FEC Encoding ID 6, RaptorQ)
 #[cfg(any(kani, test))]
 #[allow(dead_code, unused_imports, unused_macros)]
